@@ -16,7 +16,15 @@ class Prop:
     def __init__(self, rule, classify, mode="exact", modes=None, gen=True, regenerate=None,
                  exhaustive=None, trusted=None, assumptions=None, rtol=1e-9, atol_rel=1e-12,
                  finding_key=None, oracle=None, oracle_finish=None, def_ops=None, allow_badop=False,
-                 compare_op=None, semantic_names=False, correspondence_only=None):
+                 compare_op=None, semantic_names=False, correspondence_only=None, cond_rescue=False,
+                 segment_scale=False):
+        # True where an answer may be pure rounding noise around zero (a residual, a derivative that vanishes):
+        # the absolute tolerance is then relative to the largest magnitude seen since the last `reset`
+        # (operands and answers), not only to the magnitudes on the answer line itself
+        self.segment_scale = segment_scale
+        # True where a tolerance mismatch may be a rounding-level difference amplified by cancellation: the check
+        # then measures the conditioning of the op with the MODEL (perturbed operands) before judging it
+        self.cond_rescue = cond_rescue
         # predicate (toks, impl, model) -> True for a mismatch on an observable the property leaves open
         self.correspondence_only = correspondence_only
         # True where the property does not determine a result's variable LIST (solver, splines, curve look-ups,
@@ -331,7 +339,7 @@ _formula_rule = ("random formulas (depth 1-6) over + - * / neg pow exp log ncdf 
                  "differentiable domain, owned/borrowed operand forms varied by position; compared close-float (1e-9 rel): "
                  "value, gradient by name%s. non-trivial = >= 2 operators and >= 2 dual leaves")
 
-PROPS["C01"] = Prop(rule=_formula_rule % "", classify=_cls_formula, mode="close", exhaustive=lambda tier: False,
+PROPS["C01"] = Prop(rule=_formula_rule % "", classify=_cls_formula, mode="close", cond_rescue=True, exhaustive=lambda tier: False,
                     trusted=_dual_trusted + ["statrs erfc/erfc_inv ported to Lean Float for the driver; Φ, Φ⁻¹ abstract in the theorems",
                                              "glibc exp/log/pow on both sides"],
                     assumptions=_dual_assume + ["theorems hold where the formula is differentiable (Dom)"])
@@ -456,7 +464,7 @@ def _key_c02(t, il, ml):
 
 
 PROPS["C02"] = Prop(rule=_formula_rule % ", Hessian by name pair, gradient2 read-back, conversion down to first order",
-                    classify=_cls_formula, mode="close", exhaustive=lambda tier: False, oracle=_oracle_c02,
+                    classify=_cls_formula, mode="close", cond_rescue=True, exhaustive=lambda tier: False, oracle=_oracle_c02,
                     finding_key=_key_c02,
                     trusted=_dual_trusted + ["statrs erfc/erfc_inv ported to Lean Float for the driver"],
                     assumptions=_dual_assume)
@@ -676,14 +684,14 @@ _spl_trusted = [
     "correspondence run; csolve uses the fdsolve model of C13",
 ]
 
-PROPS["C14"] = Prop(semantic_names=True, 
+PROPS["C14"] = Prop(semantic_names=True, segment_scale=True, 
     rule="orders 1..6, knot vectors with k-fold end knots and 0..5 interior positions of multiplicity 1..min(k-1,3) on a "
          "dyadic grid; every basis index, m = 0..k, evaluated at every knot, both end points, span midpoints, random points "
          "and outside points; plus whole basis rows for the model-free oracle (non-negative, local support, sum = 1)",
     classify=_cls_spl, mode="close", exhaustive=lambda tier: False, trusted=_spl_trusted, oracle=_oracle_c14,
     assumptions=["f64 rounding modelled (theorems over ordered fields)"])
 
-PROPS["C15"] = Prop(semantic_names=True, 
+PROPS["C15"] = Prop(semantic_names=True, segment_scale=True, 
     rule="orders 2..6, simple interior knots, sites = Greville abscissae (plain interpolation) or knots with 2nd-derivative "
          "end conditions (natural cubic), data polynomial of degree < k or random, float / Dual / Dual2 data each tagged with "
          "its own variable; coefficients, values and derivatives m = 0..3 at sites, knots, end points and a grid; dual and "
@@ -820,7 +828,7 @@ def _oracle_c20(t, impl):
 
 
 def _cmp_c20(t, il, ml):
-    # Curve documents are outside the loader model: the implementation side is judged by the oracle alone
+    # (kept for old replays: a model that does not cover a document answers `unmodelled`)
     if t and t[0] in ("loadjson", "loadjsonx") and ml == "unmodelled":
         return True
     return None
@@ -854,4 +862,5 @@ PROPS["C20"] = Prop(
     assumptions=["calendars have at least one working weekday (an all-seven-day mask makes every adjustment loop forever)",
                  "JSON numbers are exactly representable doubles (knot order is compared exactly)",
                  "Rust's Unicode lower-casing is modelled as ASCII lower-casing; generated strings have no cased "
-                 "non-ASCII letters", "Curve documents are not modelled"])
+                 "non-ASCII letters",
+                 "object keys of a curve's node map carry no JSON escapes (serde_json reads an i64 key from the raw text)"])
